@@ -289,15 +289,28 @@ pub fn run_case_with(gd: &GenDict, mk: &dyn Fn() -> Outcome<vibrato::Dictionary>
             vec![v1, v2, v3]
         };
         let maps = if rng.chance(1, 2) { Some((net_identity_maps(rng, gd.nleft), net_identity_maps(rng, gd.nright))) } else { None };
-        let with_maps = move |d: vibrato::Dictionary| -> vibrato::errors::Result<vibrato::Dictionary> {
+        // where the user lexicon is loaded relative to the three mappings: after all of them (0); after the
+        // first one, following another user lexicon (1) or not (2) -- the later mappings must carry it along
+        let hist = rng.below(3);
+        let other_csv = GenDict::rows_csv(other.user.as_ref().unwrap());
+        let with_maps = move |d: vibrato::Dictionary, user_csv: &str| -> vibrato::errors::Result<vibrato::Dictionary> {
             let mut d = d;
-            if let Some((ls, rs)) = maps {
-                for (l, r) in ls.into_iter().zip(rs) { d = d.map_connection_ids_from_iter(l, r)?; }
+            match maps {
+                Some((ls, rs)) => {
+                    for (k, (l, r)) in ls.into_iter().zip(rs).enumerate() {
+                        d = d.map_connection_ids_from_iter(l, r)?;
+                        if hist == 1 && k == 0 { d = d.reset_user_lexicon_from_reader(Some(other_csv.as_bytes()))?; }
+                        if hist >= 1 && k == 0 { d = d.reset_user_lexicon_from_reader(Some(user_csv.as_bytes()))?; }
+                    }
+                    if hist == 0 { d = d.reset_user_lexicon_from_reader(Some(user_csv.as_bytes()))?; }
+                    Ok(d)
+                }
+                None => d.reset_user_lexicon_from_reader(Some(user_csv.as_bytes())),
             }
-            Ok(d)
         };
+        let user_csv2 = user_csv.clone();
         let replaced = match other.build() {
-            Outcome::Ok(d) => guarded(move || with_maps(d)?.reset_user_lexicon_from_reader(Some(user_csv.as_bytes()))),
+            Outcome::Ok(d) => guarded(move || with_maps(d, &user_csv2)),
             Outcome::Err => match nouser.build() {
                 // the first user lexicon was rejected (e.g. empty): load directly
                 Outcome::Ok(d) => guarded(move || d.reset_user_lexicon_from_reader(Some(user_csv.as_bytes()))),
